@@ -49,6 +49,7 @@ def handler(fn, re, fields, kw=None, ctr=None, extra_sub=()):
     out.append("//@   modifies out" + (", ctr" if ctr else ""))
     out.append("//@   allocates")
     out.append(f"//@   ensures[err] result != nil ==> len(out) == {N} && wfailed")
+    out.append("//@   ensures[werr] wfailed && !old(wfailed) ==> result != nil")
     out.append(f"//@   ensures[one] len(out) == {N} || len(out) == {N} + 1")
     out.append(f"//@   ensures[match] result == nil && matches({re}, config.logEntry) ==> len(out) == {N} + 1")
     out.append(f"//@   ensures[only] len(out) == {N} + 1 ==> matches({re}, config.logEntry) && result == nil")
@@ -109,6 +110,7 @@ ACC_COMMON = f"""//@   blocks cancellable
 //@   modifies out, CTRMOD chans
 //@   allocates
 //@   ensures[err] result != nil ==> len(out) == {N} && wfailed && sentlen(config.logins) == {S0}
+//@   ensures[werr] wfailed && !old(wfailed) ==> result != nil
 //@   ensures[one] len(out) == {N} || len(out) == {N} + 1
 //@   ensures[sendone] sentlen(config.logins) == {S0} || sentlen(config.logins) == {S0} + 1
 //@   ensures[cancel] len(out) == {N} + 1 && sentlen(config.logins) == {S0} ==> cancelled(config.ctx)
@@ -155,6 +157,7 @@ blocks.append(f"""//@ pred DataHas(i, k, v) := out[i].Data != nil && has(jsonmap
 //@   modifies out, ctr
 //@   allocates
 //@   ensures[err] result != nil ==> len(out) == {N} && wfailed
+//@   ensures[werr] wfailed && !old(wfailed) ==> result != nil
 //@   ensures[one] len(out) == {N} || len(out) == {N} + 1
 //@   ensures[match] result == nil ==> len(out) == {N} + 1
 //@   ensures[only] len(out) == {N} + 1 ==> result == nil
@@ -173,6 +176,7 @@ blocks.append(f"""//@ pred DataHas(i, k, v) := out[i].Data != nil && has(jsonmap
 //@   modifies out, ctr, chans
 //@   allocates
 //@   ensures[err] result != nil ==> wfailed && len(out) == {N} && sentlen(config.logins) == {S0}
+//@   ensures[werr] wfailed && !old(wfailed) ==> result != nil
 //@   ensures[one] len(out) == {N} || len(out) == {N} + 1
 //@   ensures[sendone] sentlen(config.logins) == {S0} || sentlen(config.logins) == {S0} + 1
 //@   ensures[send] sentlen(config.logins) == {S0} + 1 ==> len(out) == {N} + 1 && out[{N}].Outcome == "succeeded"
@@ -216,6 +220,7 @@ blocks.append(f"""//@ pred DataHas(i, k, v) := out[i].Data != nil && has(jsonmap
 //@   ensures[traced] g_sshd_calls == old(g_sshd_calls) + 1 && g_sshd_pid == sm.PID && g_sshd_msg == sm.Message && g_sshd_ctx == ctx
 //@   allocates
 //@   ensures[err] result != nil ==> wfailed && len(out) == {N} && sentlen(s.logins) == old(sentlen(s.logins))
+//@   ensures[werr] wfailed && !old(wfailed) ==> result != nil
 //@   ensures[one] len(out) == {N} || len(out) == {N} + 1
 //@   ensures[sendone] sentlen(s.logins) == old(sentlen(s.logins)) || sentlen(s.logins) == old(sentlen(s.logins)) + 1
 //@   ensures[send] sentlen(s.logins) == old(sentlen(s.logins)) + 1 ==> len(out) == {N} + 1 && out[{N}].Outcome == "succeeded"
